@@ -192,7 +192,11 @@ fn build(args: &ArgMatches) -> Result<(), Box<dyn Error>> {
     let input_dir = if input_path.is_dir() {
         input_path
     } else {
-        input_path.parent().unwrap()
+        // a bare pattern such as `*.bob` has an empty parent: the current dir
+        match input_path.parent() {
+            Some(parent) if !parent.as_os_str().is_empty() => parent,
+            _ => Path::new("."),
+        }
     };
 
     if !input_dir.is_dir() {
